@@ -344,6 +344,7 @@ def run_copy_tables(ctx):
 
 def run(ctx):
     run_edge_arity(ctx)
+    run_edge_iterables(ctx)
     run_fgg_copies(ctx)
     run_copy_tables(ctx)
     ops = op_instances()
@@ -423,6 +424,30 @@ def run_edge_arity(ctx):
                 inside = False
             ctx.fail(f'Edge() accepts {len(ns)} nodes for a label of arity {len(ty)}' + (' and add_edge puts it into a graph' if inside else ''),
                      case, 'accepted', 'ValueError', tags=['edge-arity', 'accepted'])
+
+
+def run_edge_iterables(ctx):
+    """Edge(label, nodes) is declared for any Iterable of nodes: a one-shot iterable (generator, iterator, map) must give the same edge as
+    the list of its elements (D48: the label check consumed the iterator and the edge was stored with nodes == ())"""
+    for li in range(len(ELS)):
+        ty = ELS[li][1]
+        by_lab = {0: [k for k in range(len(NODES)) if NODE_LAB[k] == 0], 1: [k for k in range(len(NODES)) if NODE_LAB[k] == 1]}
+        ns = [by_lab[l][0] for l in ty]
+        want = tuple(NODES[k] for k in ns)
+        forms = {'generator': lambda: (NODES[k] for k in ns), 'iterator': lambda: iter([NODES[k] for k in ns]),
+                 'map': lambda: map(lambda k: NODES[k], ns), 'tuple': lambda: tuple(NODES[k] for k in ns)}
+        for fname, mk in forms.items():
+            case = dict(label=el_code(mk_label(li)), nodes=[enc_node(k) for k in ns], form=fname)
+            ctx.case(case, ('edge-iterable', li, fname) if ty else None)
+            ctx.count('edge-iterable')
+            try:
+                e = Edge(mk_label(li), mk(), id='it')
+            except Exception as ex:  # noqa
+                ctx.fail(f'Edge() given its nodes as a {fname} raised {type(ex).__name__}', case, repr(ex), 'an edge', tags=['edge-iterable', 'raises', fname])
+                continue
+            if e.nodes != want:
+                ctx.fail(f'Edge() given its {len(want)} nodes as a {fname} stores nodes == {e.nodes!r}: the edge does not carry the nodes its label demands',
+                         case, [str(v) for v in e.nodes], [str(v) for v in want], tags=['edge-iterable', 'nodes-lost', fname])
 
 
 def run_fgg_copies(ctx):
